@@ -92,18 +92,24 @@ func vhSliceEq(x, y []int) bool {
 }
 
 func vhEqSlice(a, b fp.StateT[int, []int]) bool {
+	// both programs are run twice (from two symbolic states) and ALL results are compared only afterwards: the
+	// result of an earlier run must not be disturbed by a later run of the same program value
+	var ra, rb [2]fp.Try[[]int]
+	var sa, sb [2]int
 	for run := 0; run < 2; run++ {
 		s0 := zz.Int("s" + string(rune('0'+run)))
-		ra, sa := a(s0)
-		rb, sb := b(s0)
-		if sa != sb || ra.IsSuccess() != rb.IsSuccess() {
+		ra[run], sa[run] = a(s0)
+		rb[run], sb[run] = b(s0)
+	}
+	for run := 0; run < 2; run++ {
+		if sa[run] != sb[run] || ra[run].IsSuccess() != rb[run].IsSuccess() {
 			return false
 		}
-		if ra.IsSuccess() {
-			if !vhSliceEq(ra.Get(), rb.Get()) {
+		if ra[run].IsSuccess() {
+			if !vhSliceEq(ra[run].Get(), rb[run].Get()) {
 				return false
 			}
-		} else if ra.Failed().Get() != rb.Failed().Get() {
+		} else if ra[run].Failed().Get() != rb[run].Failed().Get() {
 			return false
 		}
 	}
@@ -111,18 +117,24 @@ func vhEqSlice(a, b fp.StateT[int, []int]) bool {
 }
 
 func vhEqSeq(a, b fp.StateT[int, fp.Seq[int]]) bool {
+	// both programs are run twice (from two symbolic states) and ALL results are compared only afterwards: the
+	// result of an earlier run must not be disturbed by a later run of the same program value
+	var ra, rb [2]fp.Try[fp.Seq[int]]
+	var sa, sb [2]int
 	for run := 0; run < 2; run++ {
 		s0 := zz.Int("s" + string(rune('0'+run)))
-		ra, sa := a(s0)
-		rb, sb := b(s0)
-		if sa != sb || ra.IsSuccess() != rb.IsSuccess() {
+		ra[run], sa[run] = a(s0)
+		rb[run], sb[run] = b(s0)
+	}
+	for run := 0; run < 2; run++ {
+		if sa[run] != sb[run] || ra[run].IsSuccess() != rb[run].IsSuccess() {
 			return false
 		}
-		if ra.IsSuccess() {
-			if !vhSliceEq(ra.Get(), rb.Get()) {
+		if ra[run].IsSuccess() {
+			if !vhSliceEq(ra[run].Get(), rb[run].Get()) {
 				return false
 			}
-		} else if ra.Failed().Get() != rb.Failed().Get() {
+		} else if ra[run].Failed().Get() != rb[run].Failed().Get() {
 			return false
 		}
 	}
